@@ -53,7 +53,8 @@ def ev(term, asg):
     if isinstance(term, Cmp):
         a, b = ev(term.lhs, asg), ev(term.rhs, asg)
         return {'<': lambda: a < b, '<=': lambda: a <= b, '==': lambda: a == b,
-                '!=': lambda: a != b, 'is': lambda: a is b, 'isnot': lambda: a is not b}[term.op]() == True  # noqa: E712
+                '!=': lambda: a != b, 'is': lambda: a is b, 'isnot': lambda: a is not b,
+                'in': lambda: a in b, 'notin': lambda: a not in b}[term.op]() == True  # noqa: E712
     if isinstance(term, BoolT):
         vals = [ev(a, asg) for a in term.args]
         if term.op == 'and':
